@@ -31,6 +31,8 @@ class G:
         self.rng = random.Random(seed)
         self.nts = {nt.name: nt for nt in L.parse_grammar(open(os.path.join(REPO, "src/lib/preprocessor/preprocessor.lalrpop")).read())}
         self.memo = {}
+        self.spell = False          # spell mode: tables / numbers / separators become atoms rendered later
+        self.atoms = []
 
     # ---- literal tables: non-terminals all of whose alternatives are a single literal (or such a table)
     def table(self, name):
@@ -60,11 +62,47 @@ class G:
         self.memo[name] = out
         return out
 
+    # ---- canonical groups of a `"X" => "x".to_owned()` table: canonical output -> spellings
+    def groups(self, name):
+        nt = self.nts.get(name)
+        out = {}
+        for alt in nt.alts:
+            s0 = alt.symbols[0]
+            if s0.kind == "lit":
+                m = re.match(r'\{?\s*"((?:[^"\\\\]|\\\\.)*)"\s*\.to_owned\(\)', (alt.action or "").strip())
+                key = m.group(1) if m else "__pure__"
+                out.setdefault(key, []).append(s0.value)
+            else:
+                for k, v in self.groups(s0.value).items():
+                    out.setdefault(k, []).extend(v)
+        return out
+
+    def atom(self, alts):
+        self.atoms.append(alts)
+        return "\x01%d\x02" % (len(self.atoms) - 1)
+
+    def render_atoms(self, text, srng):
+        def sub(m):
+            return srng.choice(self.atoms[int(m.group(1))])
+        text = re.sub("\x01(\\d+)\x02", sub, text)
+        text = re.sub("\x03", lambda m: srng.choice(["", "", " ", "  ", "\t"]), text)
+        text = re.sub("\x04", lambda m: srng.choice([" ", " ", "  ", "\t", " \n ", " ; remark\n"]), text)
+        return text
+
     # ---- sampling of the value-like non-terminals
     def num(self, lo, hi, signed=False):
         r = self.rng
         cands = [c for c in (lo, hi, 0, 1, (lo + hi) // 2) if lo <= c <= hi]
         v = r.choice(cands) if r.random() < 0.5 else r.randint(lo, hi)
+        if self.spell:
+            if v < 0:
+                return self.atom([str(v)])
+            alts = [str(v), "0x%X" % v, "0X%x" % v, "0b" + bin(v)[2:], "0B" + bin(v)[2:].zfill(20), "000" + str(v), "0x000%x" % v]
+            if self.spell_bits and v >= 2 ** (self.spell_bits - 1) and v < 2 ** self.spell_bits:
+                alts.append(str(v - 2 ** self.spell_bits))          # the negative decimal with the same bit pattern
+            if self.spell_offsets and v in (0, 1, 3):
+                alts += [{0: "offset bv", 1: "OFFSET wv", 3: "offset arr"}[v]] * 2
+            return self.atom(alts)
         if v < 0:
             return str(v)
         k = r.randrange(6)
@@ -80,8 +118,27 @@ class G:
             return "0" * r.randint(0, 3) + str(v)
         return str(v)
 
+    spell_bits = 0
+    spell_offsets = False
+
     def sample(self, name, depth=0):
         r = self.rng
+        if self.spell:
+            self.spell_offsets = name in ("u_word_num", "u_byte_num", "s_word_num", "s_byte_num", "raw_addr")
+            self.spell_bits = {"s_word_num": 16, "s_byte_num": 8}.get(name, 0)
+            if name in ("u_word_num", "s_word_num"):
+                return self.num(0, 65535)
+            if name in ("u_byte_num", "s_byte_num"):
+                return self.num(0, 255)
+            if name == "raw_addr":
+                return self.num(0, 1048575)
+            if name in ("byte_label", "word_label"):
+                kw = "byte" if name == "byte_label" else "word"
+                return self.atom([kw, kw.upper()]) + "\x04" + r.choice(["bv", "wv", "arr"])
+            if self.table(name) is not None:
+                g = self.groups(name)
+                key = r.choice(sorted(g))
+                return self.atom(g[key])
         if name == "u_word_num":
             return r.choice([self.num(0, 65535), self.num(0, 65535), "offset wv", "OFFSET bv"])
         if name == "u_byte_num":
@@ -129,6 +186,13 @@ class G:
 
     def join(self, parts):
         r = self.rng
+        if self.spell:
+            out = ""
+            for i, p in enumerate(parts):
+                if i:
+                    out += "\x04" if not (p in (",", "[", "]", "(", ")", "->") or parts[i - 1] in (",", "[", "]", "(", ")")) else "\x03"
+                out += p
+            return out
         out = ""
         for i, p in enumerate(parts):
             if i:
@@ -541,6 +605,12 @@ def cli_cases(g, group, thorough):
                     a, b = sorted([r.randrange(len(s) + 1), r.randrange(len(s) + 1)])
                     s[pos:pos] = s[a:b]
             out.append((r.choice(["-", "-", "i"]), "".join(s), r.choice(["", "n\n" * 50, "q\n"])))
+        def chain(k):
+            return "macro m0(a) -> inc a <-\n" + "".join(f"macro m{i}(a) -> m{i-1}(a) <-\n" for i in range(1, k)) + f"start:\nm{k-1}(ax)\nprint reg\n"
+        out.append(("-", chain(24), ""))
+        if thorough:
+            out.append(("-", chain(100), ""))
+            out.append(("-", chain(450), ""))      # open finding KF-MACRO-DEPTH
         for special in ["", "\n", ";", "start:", "start: hlt", "\"", "[[[[", "9" * 5000, "start:\nmov ax, " + "9" * 100000 + "\n", "a:" * 2000,
                         "start:\n" + "nop\n" * 5000, "db \"" + "x" * 70000 + "\"\nstart:\n"]:
             out.append(("-", special, ""))
@@ -548,11 +618,44 @@ def cli_cases(g, group, thorough):
         sys.exit("unknown cli group " + group)
     return out
 
+def spell_pairs(g, thorough):
+    """the same program under two independent spelling choices"""
+    g.spell = True
+    out = []
+    names = [n for n in g.reach("opcodes") + ["print_stmt"]]
+    alts = []
+    for name in names:
+        nt = g.nts[name]
+        for alt in nt.alts:
+            if alt.action and "out.code.push" in alt.action and name != "procedure":
+                alts.append(alt)
+    reps = 12 if thorough else 3
+    for alt in alts:
+        for k in range(reps):
+            g.atoms = []
+            lines = []
+            for _ in range(g.rng.randrange(1, 4)):
+                a = alt if _ == 0 else g.rng.choice(alts)
+                parts = [g.render_sym(s, 1) for s in a.symbols]
+                lines.append(g.join([p for p in parts if p is not None]))
+            body = PRELUDE + "start:\x04" + "\x04".join(lines) + "\x04lab:\x04hlt\x04fin:\n"
+            s1 = g.render_atoms(body, random.Random(g.rng.random()))
+            s2 = g.render_atoms(body, random.Random(g.rng.random()))
+            out.append((s1, s2))
+    g.spell = False
+    return out
+
 def main():
     group, tier, seed = sys.argv[1], sys.argv[2], int(sys.argv[3])
     shard, nshards = (int(sys.argv[4]), int(sys.argv[5])) if len(sys.argv) > 5 else (0, 1)
     thorough = tier == "thorough"
     g = G(seed * 7919 + hash(group) % 1000 if False else seed * 7919 + sum(map(ord, group)))
+    if group == "spell":
+        for i, (a, b) in enumerate(spell_pairs(g, thorough)):
+            if i % nshards == shard:
+                strip = lambda t: re.sub(r";.*\n?", "\n", t)      # the driver's comment stripping (the library API gets stripped text)
+                sys.stdout.write("asm2 " + enc(strip(a)) + " " + enc(strip(b)) + "\n")
+        return
     if os.environ.get("VERIF_L3_KIND", "asm") == "cli":
         cases = []
     elif group == "shapes":
